@@ -59,9 +59,19 @@ def params_for(draw, name, box, allow_zero_cap=True, big=False):
         v0 = lo - draw(st.integers(0, 1))
         m = hi - v0 + 1 + draw(st.integers(0, 1))
         lbs, ubs = [], []
+        # tight capacities (alldifferent-like, total capacity close to the number of variables) make nested Hall
+        # intervals and saturated lower capacities frequent; the loose mode covers the rest of the contract
+        mode = draw(st.sampled_from(["tight", "tight", "loose", "low-heavy"]))
         for _ in range(m):
-            lb = draw(st.integers(0, 2))
-            ub = lb + draw(st.integers(0, 2))
+            if mode == "tight":
+                lb = draw(st.sampled_from([0, 0, 0, 1]))
+                ub = max(lb, draw(st.sampled_from([1, 1, 2])))
+            elif mode == "low-heavy":
+                lb = draw(st.sampled_from([0, 1, 1, 2]))
+                ub = lb + draw(st.sampled_from([0, 0, 1]))
+            else:
+                lb = draw(st.integers(0, 2))
+                ub = lb + draw(st.integers(0, 2))
             if ub == 0 and not allow_zero_cap:
                 ub = 1
             lbs.append(lb)
@@ -97,7 +107,7 @@ def box_case(draw, types=None, max_n=4, max_w=3, lo=-3, hi=4, allow_zero_cap=Tru
         vb = draw(interval(lo - 1, hi + 1, mw))
         return {"type": name, "params": params, "box": [ib, vb]}
     n_lo = t.min_n
-    n = draw(st.integers(n_lo, max(n_lo, max_n)))
+    n = draw(st.integers(n_lo, max(n_lo, max_n + (1 if name in ("alldifferent", "gcc") else 0))))  # Hall intervals need room
     if t.even:
         n = 2 * draw(st.integers(1, max(2, max_n - 1)))  # lexicographic: up to max_n-1 pairs
     if t.boolean:
